@@ -313,6 +313,37 @@ func runC06Instance(dir string, g *rand.Rand, masks []api.EventMask, R, nreq int
 		}
 	}
 
+	// phase 2: one plugin with at least two others behind it goes away; more requests follow without any
+	// registration in between
+	var stopTick int64
+	victim := -1
+	{
+		sorted := append([]*c06Plugin(nil), r.plugins...)
+		sort.SliceStable(sorted, func(i, j int) bool { return sorted[i].idx < sorted[j].idx })
+		if len(sorted) >= 4 {
+			v := sorted[g.IntN(len(sorted)-2)]
+			victim = v.pos
+			v.p.StopStub()
+			select {
+			case <-v.p.Closed:
+			case <-time.After(5 * time.Second):
+			}
+			stopTick = rig.Tick()
+			for i := 0; i < 12; i++ {
+				id := fmt.Sprintf("%s-s%d", tag, i)
+				q := &c06Req{ID: id, Event: allEvents[g.IntN(len(allEvents))]}
+				b := rt.A.BlockPluginSync()
+				q.Ticket = rig.Tick()
+				q.Call = q.Ticket
+				q.Echo, q.Err = c06Issue(rt.A, q.Event, id)
+				q.Ret = rig.Tick()
+				b.Unblock()
+				reqs = append(reqs, q)
+			}
+			res.Count("requests_after_a_plugin_left", 12)
+		}
+	}
+
 	// ------------------------------------------------------------------ oracles
 	r.mu.Lock()
 	log := append([]c06Inv(nil), r.log...)
@@ -360,6 +391,9 @@ func runC06Instance(dir string, g *rand.Rand, masks []api.EventMask, R, nreq int
 		var expectEcho []string
 		for _, p := range sorted {
 			active := q.Ticket > p.p.SyncTick.Load() && p.p.SyncTick.Load() != 0
+			if p.pos == victim && q.Ticket > stopTick {
+				active = false // it has left
+			}
 			want := 0
 			if active && p.subscribed(q.Event) && !vetoed {
 				want = 1
